@@ -194,4 +194,31 @@ def opOf (s : State) : Nat → Char
   | 0 => opC s.cpc
   | w+1 => opW (s.wpc w) (s.st w)
 
+/-! ### ranking function (termination): decreases on every non-spurious transition -/
+def sumTo : Nat → (Nat → Nat) → Nat
+  | 0, _ => 0
+  | k+1, f => sumTo k f + f k
+def BW (n : Nat) : Nat := 2 * n + 4
+/-- number of steps worker can still take on its own, plus its budget for the wake-ups it will cause -/
+def lw (n : Nat) (p : WPc) (st : WSt) : Nat :=
+  match st, p with
+  | _, .idle => 0 | _, .done => 0 | _, .exit => 1
+  | .wait, .waiting => 0 | .wait, .hold => 1 | .wait, .lock1 => 2 | .wait, .woken => 2 | .wait, .unlock2 => 3
+  | .wait, .bcast => 4 + BW n | .wait, .lock2 => 5 + BW n
+  | .run, .lock2 => 5 + BW n | .run, .hold => 6 + BW n | .run, .lock1 => 7 + BW n | .run, .woken => 7 + BW n
+  | .run, .waiting => 8 + BW n | .run, .unlock2 => 8 + BW n | .run, .bcast => 9 + 2 * BW n
+  | .term, .hold => 2 | .term, .lock1 => 3 | .term, .woken => 3 | .term, .waiting => 4 | .term, .unlock2 => 4
+  | .term, .bcast => 5 + BW n | .term, .lock2 => 5 + BW n
+def G (n : Nat) : Nat := 8 + BW n
+def PB (n : Nat) : Nat := 8 + 2 * n + n * G n
+def CT (n : Nat) : Nat := 7 * n + 4
+def rankC (c : Cfg) (p : CPc) (blk : Nat) : Nat :=
+  let E := PB c.n * (c.blocks - blk - 1) + CT c.n
+  match p with
+  | .create k => (c.n - k) * G c.n + G c.n + 1 + PB c.n * c.blocks + CT c.n
+  | .lockA => PB c.n + E | .bcastA => 7 + 2 * c.n + E | .unlockA => 6 + E | .lockB => 5 + E
+  | .woken => 4 + E | .condWait => 3 + E | .waiting => 2 + E | .unlockB => 1 + E
+  | .lockT => CT c.n | .bcastT => 3 * c.n + 3 | .unlockT => c.n + 2 | .join k => c.n + 1 - k | .final => 0
+def rank (c : Cfg) (s : State) : Nat := rankC c s.cpc s.blk + sumTo c.n (fun w => lw c.n (s.wpc w) (s.st w))
+
 end PsV.Sync
